@@ -376,6 +376,10 @@ func (ev *Env) ident(name string, old bool) Val {
 		return Val{S: "Nil", T: "nil"}
 	case "result":
 		if len(ev.res) == 0 {
+			// not in a postcondition: a local variable that happens to be called result
+			if v, ok := ev.lookupVar("result"); ok {
+				return ev.varVal(v)
+			}
 			limitf("result used but function has no results")
 		}
 		return ev.res[0]
@@ -386,6 +390,10 @@ func (ev *Env) ident(name string, old bool) Val {
 		}
 	}
 	if v, ok := ev.lookupVar(name); ok {
+		return ev.varVal(v)
+	}
+	if false {
+		var v Val
 		if v.S == "@addr" {
 			// address-taken local: load its current value
 			r := ev.x.load(ev.st, v.A, "")
@@ -418,6 +426,26 @@ func (ev *Env) ident(name string, old bool) Val {
 	}
 	limitf("unknown name %q in contract", name)
 	return Val{}
+}
+
+// varVal: the current value of a named variable (loads address-taken locals, peeks at records under construction)
+func (ev *Env) varVal(v Val) Val {
+	if v.S == "@addr" {
+		r := ev.x.load(ev.st, v.A, "")
+		if r.GT == nil {
+			r.GT = v.GT
+		}
+		return r
+	}
+	if v.A != nil && v.T == "" {
+		t := ev.x.term(ev.st, v, false)
+		s := ""
+		if o := ev.st.objs[v.A.ObjID]; o != nil && o.SI != nil {
+			s = o.SI.sortName()
+		}
+		return Val{S: s, T: t, GT: v.GT}
+	}
+	return v
 }
 
 func (ev *Env) field(base Val, name string, old bool) Val {
